@@ -33,11 +33,8 @@ func (s *Store) SplitRegion(parentID uint64, childMeta manifest.RegionMeta) (*pe
 		return nil, fmt.Errorf("raftstore: parent region %d not found", parentID)
 	}
 	originalParent := manifest.CloneRegionMeta(parentMeta)
-	if len(parentMeta.EndKey) > 0 && bytes.Compare(childMeta.StartKey, parentMeta.EndKey) >= 0 {
-		return nil, fmt.Errorf("raftstore: split key >= parent end key")
-	}
-	if bytes.Compare(childMeta.StartKey, parentMeta.StartKey) <= 0 {
-		return nil, fmt.Errorf("raftstore: split key must be greater than parent start key")
+	if err := validateSplitKey(parentMeta, childMeta.StartKey); err != nil {
+		return nil, err
 	}
 	newParent := parentMeta
 	newParent.EndKey = append([]byte(nil), childMeta.StartKey...)
@@ -77,6 +74,18 @@ func (s *Store) ProposeSplit(parentID uint64, childMeta manifest.RegionMeta, spl
 	if status := parentPeer.Status(); status.RaftState != myraft.StateLeader {
 		return fmt.Errorf("raftstore: peer %d is not leader", parentPeer.ID())
 	}
+	// Reject what the apply path would reject before it enters the raft log.
+	parentMeta, ok := s.RegionMetaByID(parentID)
+	if !ok {
+		return fmt.Errorf("raftstore: parent region %d not found", parentID)
+	}
+	splitAt := childMeta.StartKey
+	if len(splitAt) == 0 {
+		splitAt = splitKey
+	}
+	if err := validateSplitKey(parentMeta, splitAt); err != nil {
+		return err
+	}
 	cmd := &pb.AdminCommand{
 		Type: pb.AdminCommand_SPLIT,
 		Split: &pb.SplitCommand{
@@ -106,6 +115,18 @@ func (s *Store) ProposeMerge(targetRegionID, sourceRegionID uint64) error {
 	}
 	if status := peer.Status(); status.RaftState != myraft.StateLeader {
 		return fmt.Errorf("raftstore: peer %d is not leader", peer.ID())
+	}
+	// Reject what the apply path would reject before it enters the raft log.
+	targetMeta, ok := s.RegionMetaByID(targetRegionID)
+	if !ok {
+		return fmt.Errorf("raftstore: target region %d not found", targetRegionID)
+	}
+	sourceMeta, ok := s.RegionMetaByID(sourceRegionID)
+	if !ok {
+		return fmt.Errorf("raftstore: source region %d not found", sourceRegionID)
+	}
+	if _, _, err := mergedRange(targetMeta, sourceMeta); err != nil {
+		return err
 	}
 	cmd := &pb.AdminCommand{
 		Type: pb.AdminCommand_MERGE,
@@ -181,11 +202,14 @@ func (s *Store) handleMergeCommand(merge *pb.MergeCommand) error {
 	if !ok {
 		return fmt.Errorf("raftstore: source region %d not found", merge.GetSourceRegionId())
 	}
+	start, end, err := mergedRange(parentMeta, sourceMeta)
+	if err != nil {
+		return err
+	}
 	updated := parentMeta
 	updated.Epoch.Version++
-	if len(sourceMeta.EndKey) == 0 || bytes.Compare(sourceMeta.EndKey, updated.EndKey) > 0 {
-		updated.EndKey = append([]byte(nil), sourceMeta.EndKey...)
-	}
+	updated.StartKey = append([]byte(nil), start...)
+	updated.EndKey = append([]byte(nil), end...)
 	if err := s.UpdateRegion(updated); err != nil {
 		return err
 	}
@@ -196,6 +220,39 @@ func (s *Store) handleMergeCommand(merge *pb.MergeCommand) error {
 		return err
 	}
 	return nil
+}
+
+// validateSplitKey checks that key lies strictly inside the parent's range, so
+// that both halves of the split are non-empty.
+func validateSplitKey(parent manifest.RegionMeta, key []byte) error {
+	if len(key) == 0 {
+		return fmt.Errorf("raftstore: child region start key required")
+	}
+	if len(parent.EndKey) > 0 && bytes.Compare(key, parent.EndKey) >= 0 {
+		return fmt.Errorf("raftstore: split key >= parent end key")
+	}
+	if bytes.Compare(key, parent.StartKey) <= 0 {
+		return fmt.Errorf("raftstore: split key must be greater than parent start key")
+	}
+	return nil
+}
+
+// mergedRange returns the range the target covers after absorbing source. The
+// two regions must be neighbours: source either starts where target ends
+// (right neighbour, the target's end moves) or ends where target starts (left
+// neighbour, the target's start moves). Anything else would leave a hole in the
+// key space or stretch the target over regions lying in between.
+func mergedRange(target, source manifest.RegionMeta) (start, end []byte, err error) {
+	switch {
+	case target.ID == source.ID:
+		return nil, nil, fmt.Errorf("raftstore: cannot merge region %d into itself", target.ID)
+	case len(target.EndKey) > 0 && bytes.Equal(source.StartKey, target.EndKey):
+		return target.StartKey, source.EndKey, nil
+	case len(source.EndKey) > 0 && bytes.Equal(source.EndKey, target.StartKey):
+		return source.StartKey, target.EndKey, nil
+	default:
+		return nil, nil, fmt.Errorf("raftstore: merge source region %d is not adjacent to target region %d", source.ID, target.ID)
+	}
 }
 
 func regionMetaToPB(meta manifest.RegionMeta) *pb.RegionMeta {
